@@ -17,8 +17,22 @@ What is replayed into the real code, for every TLC record (form G, limit L, cent
   unitcell_from_parameters(pars).gethkls           (every 4th record)
   unitcell.makerings(dsmax - tol, tol)             tol below the smallest exact gap: rings = Q shells
   indexing.indexer(...).assigntorings()            ring table + ra / na   (every 8th record)
+  cellfromstring("a b c al be ga cen").gethkls     (every 4th record)
+  the same form realised as a LARGE cell           longest edge 30 A instead of shortest edge 4 A (every 4th record)
 and, for seeded random float cells in the property's domain, makerings / assigntorings traces
-validated by TLC against TraceRings.
+validated by TLC against TraceRings (tolerances from 1e-6 to 2.5 x limit, the default tolerance,
+several calls on one object).
+
+BIG instances (HklWalk SpecBig, HklWalk_big_q/_t.cfg; replayed by harness/c03_big.py in parallel
+worker processes): forms and limits whose candidate box (2hmax+1)(2kmax+1)(2lmax+1) holds 1.2e5 .. 2.0e6
+hkl - cubic, orthorhombic, long axis (an index reaches +-199 on each axis), hexagonal, monoclinic,
+rhombohedral, triclinic; every centring; as a 30 A cell with a small limit or a 2-4 A cell with a large
+limit.  TLC computes count / checksums / shell count of the brute-force set with exact integers; the
+harness' vectorised numpy brute force must reproduce them and then judges the real list (complete,
+sound, no duplicates, ascending, no (0,0,0), ds = sqrt(Q/scale) = |B.hkl|, peaks/limit state, second
+call), the ring tables made from the cached list (tolerance below every gap: rings = Q shells; a
+tolerance that merges shells: partition clauses + grouping rule; windows of whole rings validated by
+TraceRings), smaller limits asked of the same object afterwards, and indexer.assigntorings.
 
 Verdicts
   property failure explained by nothing        -> VIOLATION
@@ -137,14 +151,14 @@ def guarded(tally, label, caseobj, fn, *a, **kw):
         raise CodeRaised(label)
 
 
-def gethkls_case(chk, ucmod, rec, tally, via_parameters=False):
+def gethkls_case(chk, ucmod, rec, tally, via_parameters=False, via=None, mode="lo"):
     """observe + judge one record through gethkls; returns (verdict, observation, cell, scale, dsmax)"""
     tie, cap = bool(rec.get("tie")), bool(rec.get("cap"))
-    cell, scale = L.cell_from_form(rec["g"], tie=tie, cap=cap)
+    cell, scale = L.cell_from_form(rec["g"], tie=tie, cap=cap, mode=mode)
     dsmax = L.dsmax_for(rec["lim"], scale, tie)
     if tie and not rec["tieaxial"]:
         return None, None, cell, scale, dsmax
-    o = L.observe_gethkls(ucmod, cell, rec["cen"], dsmax, via_parameters=via_parameters)
+    o = L.observe_gethkls(ucmod, cell, rec["cen"], dsmax, via_parameters=via_parameters, via=via)
     if tie and not L.tie_exact(rec, o, scale):
         return None, o, cell, scale, dsmax
     v = L.judge_gethkls(rec, o, scale)
@@ -183,7 +197,7 @@ def account_gethkls(chk, rec, v, route, tally):
     label = "+".join(sorted(causes))
     what = ("gethkls[%s] cell=(%.4f %.4f %.4f %.3f %.3f %.3f) %s dsmax^2*scale=%s: %s; missing %s extra %s; "
             "cause=%s conformance_failed=%s"
-            % (route, *L.cell_from_form(rec["g"], tie=bool(rec.get("tie")))[0], rec["cen"], ("%d" if rec.get("tie") else "%d-1/2") % rec["lim"],
+            % (route, *L.cell_from_form(rec["g"], tie=bool(rec.get("tie")), mode=("hi" if route == "scale-hi" else "lo"))[0], rec["cen"], ("%d" if rec.get("tie") else "%d-1/2") % rec["lim"],
                ",".join(v.prop), v.missing[:6], v.extra[:6], label, v.conf))
     tally.add(label, len(rec["hits"]), what, {"kind": "gethkls", "route": route, "rec": rec})
     return "violation"
@@ -301,6 +315,94 @@ def history_route(chk, ucmod, recs, tally):
                 break
 
 
+# ----------------------------------------------------------------------------------------------
+# BIG instances (HklWalk SpecBig): replayed by c03_big.py in parallel worker processes
+
+def big_jobs(recs, thorough, table):
+    """one job per (record, realisation); options rotate with the seed"""
+    s = common.seed()
+    jobs = []
+    for i, rec in enumerate(sorted(recs, key=lambda r: (r["nbox"], r["g"], r["cen"]))):
+        if table == "textbook":
+            rec = dict(rec, rule=rec["cen"])
+        # thorough: both realisations up to 5e5 candidates, alternating above; quick: alternating
+        for mode in (("lo", "hi") if thorough and rec["nbox"] <= 500000 else (("hi", "lo")[(i + s) % 2],)):
+            opts = {"mode": mode, "seed": s,
+                    "history": (i + s + (mode == "hi")) % 3 == 0 and rec["nbox"] <= 1100000,
+                    "indexer": rec["nbox"] < (300000 if thorough else 200000) and (mode == "lo" or not thorough),
+                    "via_parameters": (i + s) % 4 == 1, "windows": 3 if not thorough else 2}
+            jobs.append({"rec": rec, "opts": opts})
+    return jobs
+
+
+def big_start(jobs, nproc):
+    """start the worker processes (longest job first onto the least loaded shard)"""
+    import subprocess
+    shards = [[0.0, []] for _ in range(max(1, min(nproc, len(jobs))))]
+    for job in sorted(jobs, key=lambda j: -j["rec"]["nbox"] * (1.5 if j["opts"]["history"] else 1.0)):
+        sh = min(shards, key=lambda x: x[0])
+        sh[0] += job["rec"]["nbox"] * (1.5 if job["opts"]["history"] else 1.0)
+        sh[1].append(job)
+    procs = []
+    for k, (w, js) in enumerate(shards):
+        fin = os.path.join(common.scratch(), "big_in_%d.json" % k)
+        fout = os.path.join(common.scratch(), "big_out_%d.json" % k)
+        with open(fin, "w") as f:
+            json.dump(js, f)
+        env = dict(os.environ, OMP_NUM_THREADS="1", OPENBLAS_NUM_THREADS="1", MKL_NUM_THREADS="1")
+        hdir = os.path.dirname(os.path.abspath(L.__file__))
+        p = subprocess.Popen([sys.executable, os.path.join(hdir, "c03_big.py"), fin, fout],
+                             cwd=hdir, env=env, stdout=subprocess.PIPE, stderr=subprocess.STDOUT, text=True)
+        procs.append((p, fout, js))
+    import atexit
+    atexit.register(lambda: [q.kill() for q, _, _ in procs if q.poll() is None])    # (a machinery error on the way)
+    return procs
+
+
+def big_collect(chk, procs, tally, timeout=3600):
+    """merge the workers' verdicts; returns the number of cases"""
+    n, secs, machinery = 0, 0.0, []
+    for p, fout, js in procs:
+        try:
+            outtxt, _ = p.communicate(timeout=timeout)
+        except Exception:
+            p.kill()
+            raise common.MachineryError("BIG worker timed out")
+        if p.returncode != 0 or not os.path.exists(fout):
+            machinery.append("BIG worker failed (rc %s): %s" % (p.returncode, (outtxt or "")[-1500:]))
+            continue
+        with open(fout) as f:
+            results = json.load(f)
+        for job, r in zip(js, results):
+            if r.get("machinery"):
+                machinery.append(r["machinery"])
+                continue
+            n += 1
+            secs += r.get("secs", 0.0)
+            rec = job["rec"]
+            chk.case(("big", tuple(rec["g"]), rec["lim"], rec["cen"], job["opts"]["mode"]), nontrivial=r.get("n", 0) > 0)
+            chk.traces += r["lists"] + r["ringtables"]
+            for k, v in r["skipped"].items():
+                tally.skipped["BIG: " + k] = tally.skipped.get("BIG: " + k, 0) + v
+            for f in r["fails"]:
+                if f["label"] == "centring-table" and chk.finding(F_TABLE) is not None:
+                    chk.known_finding(F_TABLE, "centring A filtered with the I rule (real list = the set under the I rule)")
+                    continue
+                tally.add("big:" + f["label"], f["size"], f["what"], f["case"])
+            for t in r["ring_traces"]:
+                tid = len(tally.ring_traces)
+                tr = dict(t["trace"], tid=tid)
+                tally.ring_traces.append(tr)
+                tally.ring_params[tid] = dict(t["params"], route=t["params"]["route"] + " (rings %d..%d of the table)" % tuple(tr["window"]))
+                chk.traces += 1
+            if len(chk.samples) < 4 and not r["fails"]:
+                chk.sample({"big": True, "form": rec["g"], "L": rec["lim"], "centring": rec["cen"], "candidates": rec["nbox"],
+                            "box": rec["box"], "n_real": r.get("n"), "n_brute": rec["nb"], "shells": rec["nsh"],
+                            "scale": job["opts"]["mode"], "lists_judged": r["lists"], "ring_tables_judged": r["ringtables"]})
+    chk.notes["big_instances"] = {"cases": n, "cpu_seconds_in_workers": round(secs, 1)}
+    return n, machinery
+
+
 def random_ring_cases(chk, ucmod, idxmod, n, tally, rng):
     """mode C driver: seeded float cells in the property's domain, arbitrary tolerances"""
     done = 0
@@ -316,6 +418,13 @@ def random_ring_cases(chk, ucmod, idxmod, n, tally, rng):
         tol = 10 ** rng.uniform(-4, -1.6)
         if kind == "pseudo":
             tol = limit * 10 ** rng.uniform(-3.3, -1.7)    # around the pseudo-symmetric splitting
+        # the far ends of the tolerance range (value-dependent handling of tol): every 10th case each
+        if i % 10 == 7:
+            tol = 10 ** rng.uniform(-6, -4.3)               # far below every splitting: one ring per d-star
+        elif i % 10 in (8, 9):
+            f = rng.uniform(0.08, 0.6) if i % 10 == 8 else rng.uniform(1.0, 2.5)    # a few rings / a single ring
+            limit = limit / (1.0 + f)                       # (the list goes up to limit + tol: keep it short)
+            tol = limit * f
         for attempt in range(8):
             uc = ucmod.unitcell(cell, cen)
             try:
@@ -345,9 +454,17 @@ def random_ring_cases(chk, ucmod, idxmod, n, tally, rng):
         done += 1
         # ring histories on the SAME object: same limit with another tolerance, the same pair again, another limit
         # (a cached ring table must never survive a change of tolerance or limit)
-        for (lim2, tol2) in ((limit, tol * 0.137), (limit, tol * 0.137), (limit, tol * 2.9), (limit * 0.93, tol * 2.9), (limit, tol)):
+        # the default tolerance (makerings(limit) without tol = 0.001) is one of the calls when the list stays short
+        seq = [(limit, tol * 0.137), (limit, tol * 0.137), (limit, tol * 2.9), (limit * 0.93, tol * 2.9), (limit, tol)]
+        if (limit + 0.001) ** 3 * 4.19 * vol < 400:
+            seq.insert(2 + i % 3, (limit, None))
+        for (lim2, tol2) in seq:
             try:
-                uc.makerings(lim2, tol2)
+                if tol2 is None:
+                    uc.makerings(lim2)
+                    tol2 = 0.001
+                else:
+                    uc.makerings(lim2, tol2)
             except IndexError:
                 break
             ds2 = [p[0] for p in uc.peaks]
@@ -409,6 +526,11 @@ def run(tier, replay=None):
     for f in glob.glob(os.path.join(common.VERIF, "replay", PROP, "violation_*.json")):
         os.unlink(f)
     rng = random.Random(common.seed() * 7919 + 3)
+    _T00 = time.time()
+
+    def _mark(what):
+        if os.environ.get("C03_TIMING"):
+            sys.stderr.write("[c03 timing] %-28s %.1fs\n" % (what, time.time() - _T00))
     table = detect_table(ucmod)
     chk.notes["absence_table_model"] = "OutifPinned (A -> I rule)" if table == "pinned" else "OutifTextbook"
     thorough = tier == "thorough"
@@ -422,15 +544,33 @@ def run(tier, replay=None):
     from concurrent.futures import ThreadPoolExecutor
     pool = ThreadPoolExecutor(max_workers=8)
     fut = {}
+    bigname = "big_t" if thorough else "big_q"
+    # (timeouts are generous: the box is shared and at times loaded ten times over)
+    fut["big"] = pool.submit(common.run_tlc, "HklWalk", _cfg(bigname, table), workers=(6 if thorough else 4),
+                             timeout=(3600 if thorough else 1500))
     for nm in names:
         fut[nm] = pool.submit(common.run_tlc, "HklWalk", _cfg(nm, table), workers=(10 if nm == names[0] else 2),
-                              coverage=thorough, timeout=1500)
+                              coverage=thorough, timeout=(3600 if thorough else 1500))
     fut["prop"] = pool.submit(common.run_tlc, "HklWalk", _cfg("prop", table), workers=2, timeout=600)
     fut["enum"] = pool.submit(common.run_tlc, "TraceRings", os.path.join(common.SPECS, "TraceRings_enum.cfg"),
                               workers=2, timeout=600, coverage=thorough)
     if thorough:
         fut["orth"] = pool.submit(common.run_tlc, "HklWalk", os.path.join(common.SPECS, "HklWalk_orth.cfg"),
                                   workers=4, timeout=1200)
+    # BIG instances: the worker processes start as soon as their TLC run is through and run beside everything else
+    def _big_launch():
+        res = fut["big"].result()
+        recs_ = []
+        for s_ in res.printed:
+            try:
+                recs_.append(json.loads(s_))
+            except ValueError:
+                return res, None, []
+        if res.violated or res.error or not recs_ or any(not r.get("big") for r in recs_):
+            return res, None, []
+        _mark("BIG TLC run done")
+        return res, recs_, big_start(big_jobs(recs_, thorough, table), 8 if thorough else 5)
+    fut["biglaunch"] = pool.submit(_big_launch)
     recs = []
     for nm in names:
         r = _emit_run(chk, nm, table, workers=16, coverage=thorough, cov_acc=cov, res=fut[nm].result())
@@ -459,6 +599,7 @@ def run(tier, replay=None):
             raise common.MachineryError("HklWalk_orth theorem violated: %s" % res3.violated)
         chk.add_tlc("HklWalk orth (walk complete on right-angled cells a<=b)", res3)
 
+    _mark("TLC runs collected")
     # ---- replay every record
     seen_brute = {}
     cex_status = None
@@ -490,18 +631,31 @@ def run(tier, replay=None):
                         "conformance_failed": v.conf})
         if rec.get("cap") or rec.get("tie"):
             continue
-        if n % 4 == 0:
+        # other entry points / another realisation of the same integer problem, every 4th record each:
+        #   unitcell_from_parameters ; cellfromstring ; the same form as a LARGE cell (longest edge 30 A)
+        alt = {0: ("unitcell_from_parameters", "parameters", dict(via="parameters")),
+               1: ("scale hi (longest edge 30 A)", "scale-hi", dict(mode="hi")),
+               2: ("cellfromstring", "string", dict(via="string"))}.get(n % 4)
+        if alt is not None:
+            label, route, kw = alt
             try:
-                v2, o2, _, _, _ = guarded(tally, "unitcell_from_parameters",
-                                          {"kind": "gethkls", "route": "parameters", "rec": rec},
-                                          gethkls_case, chk, ucmod, rec, tally, via_parameters=True)
+                v2, o2, cell2, _, d2 = guarded(tally, label, {"kind": "gethkls", "route": route, "rec": rec},
+                                               gethkls_case, chk, ucmod, rec, tally, **kw)
             except CodeRaised:
                 continue
             chk.traces += 1
-            if v2.prop != v.prop or v2.conf != v.conf or [p[1] for p in o2.peaks] != [p[1] for p in o.peaks]:
-                tally.add("route:unitcell_from_parameters", len(rec["hits"]),
-                          "unitcell_from_parameters(...).gethkls differs from unitcell(...).gethkls on %s" % (key,),
-                          {"kind": "gethkls", "route": "parameters", "rec": rec})
+            same = [p[1] for p in o2.peaks] == [p[1] for p in o.peaks] if "mode" not in kw else \
+                sorted(p[1] for p in o2.peaks) == sorted(p[1] for p in o.peaks)   # (equal-Q order is float noise)
+            if "mode" in kw and v2.prop == v.prop and same and v2.conf != v.conf:
+                # another realisation, property holds, only the model conformance differs: evidence, not a violation
+                for c in v2.conf:
+                    tally.conf["scale hi: " + c] = tally.conf.get("scale hi: " + c, 0) + 1
+            elif v2.prop != v.prop or v2.conf != v.conf or not same:
+                tally.add("route:" + label, len(rec["hits"]),
+                          "route %s: cell %s %s dsmax=%r: gethkls fails %s / %s (%d entries), unitcell(...).gethkls "
+                          "on the 4 A realisation %s / %s (%d entries), instance %s"
+                          % (label, cell2, rec["cen"], d2, v2.prop, v2.conf, len(o2.peaks), v.prop, v.conf, len(o.peaks), key),
+                          {"kind": "gethkls", "route": route, "rec": rec})
         if len(o.peaks) > 0 and (thorough or n % 2 == 0):
             try:
                 guarded(tally, "makerings/assigntorings", {"kind": "gethkls", "route": "gethkls", "rec": rec},
@@ -513,6 +667,7 @@ def run(tier, replay=None):
         guarded(tally, "gethkls history", {"kind": "none"}, history_route, chk, ucmod, recs, tally)
     except CodeRaised:
         pass
+    _mark("records replayed")
     if cex:
         chk.notes["tlc_property_on_walk_model"]["replayed_on_real_code"] = cex_status or "instance not in this tier's families"
 
@@ -523,7 +678,21 @@ def run(tier, replay=None):
                 chk, ucmod, idxmod, nrand, tally, rng)
     except CodeRaised:
         pass
+    _mark("random ring cases")
+    bres, bigrecs, bigprocs = fut["biglaunch"].result()
+    if bigrecs is None:
+        if bres.violated:
+            raise common.MachineryError("HklWalk_%s: model invariant %s violated (specification error)\n%s"
+                                        % (bigname, bres.violated, bres.stdout[-1500:]))
+        chk.add_tlc("HklWalk " + bigname, bres)          # raises on a TLC error
+        raise common.MachineryError("HklWalk_%s emitted no usable BIG records" % bigname)
+    chk.add_tlc("HklWalk " + bigname, bres)
+    if bres.states != 2 * len(bigrecs):
+        raise common.MachineryError("HklWalk_%s: %d records for %d states" % (bigname, len(bigrecs), bres.states))
+    nbig, big_machinery = big_collect(chk, bigprocs, tally)
+    _mark("BIG workers collected")
     verdicts, rres = validate_ring_traces(chk, tally)
+    _mark("TraceRings validation")
     rejected = sum(1 for w in verdicts.values() if w)
     for a in RING_ACTIONS:
         # (when real tables are rejected at `Begin` the later actions are legitimately not reached:
@@ -544,11 +713,17 @@ def run(tier, replay=None):
     for label, (count, smallest) in sorted(tally.classes.items()):
         for size, what, caseobj in smallest:
             chk.violation("[%s, %d cases in this run] %s" % (label, count, what), caseobj)
+    if big_machinery:
+        # (violations recorded above come first: run.py turns a later machinery error into exit 1)
+        if not tally.classes:
+            raise common.MachineryError("; ".join(big_machinery)[:3000])
+        chk.notes["big_machinery"] = big_machinery
     chk.notes["violation_classes"] = {k: v[0] for k, v in tally.classes.items()}
     chk.notes["conformance_only_differences"] = tally.conf
     chk.notes["algorithm_followed"] = tally.algo
     chk.notes["not_judged"] = tally.skipped
-    chk.rule = ("every (form, limit, centring) record emitted by TLC is replayed; non-trivial = at least one "
+    chk.rule = ("every (form, limit, centring) record emitted by TLC is replayed, BIG records (candidate boxes of "
+                "1.2e5 .. 2.0e6 hkl) included; non-trivial = at least one "
                 "reflection in range; ring traces non-trivial = some ring has more than one member")
     chk.exhaustive = True
     chk.assumptions = ["|h|,|k|,|l| < 200 (gethkls docstring): the CAP instance is conformance only",
@@ -571,7 +746,8 @@ def do_replay(chk, path, ucmod, idxmod):
         rec = dict(case["rec"])
         if detect_table(ucmod) == "textbook":
             rec["rule"] = rec["cen"]         # the saved record carries the table model of the tree it came from
-        v, o, cell, scale, dsmax = gethkls_case(chk, ucmod, rec, tally, via_parameters=(case.get("route") == "parameters"))
+        kw = {"parameters": dict(via="parameters"), "string": dict(via="string"), "scale-hi": dict(mode="hi")}.get(case.get("route"), {})
+        v, o, cell, scale, dsmax = gethkls_case(chk, ucmod, rec, tally, **kw)
         chk.traces += 1
         chk.case(("replay", path))
         print("replay %s: cell=%s centring=%s dsmax=%r" % (path, cell, rec["cen"], dsmax))
@@ -579,6 +755,34 @@ def do_replay(chk, path, ucmod, idxmod):
         print("  property clauses failed: %s   missing=%s extra=%s" % (v.prop, v.missing, v.extra))
         print("  walk-model conformance failed: %s   algorithm followed: %s" % (v.conf, v.algo))
         account_gethkls(chk, rec, v, case.get("route", "gethkls"), tally)
+    elif case["kind"] == "big":
+        import c03_big as BG
+        rec = dict(case["rec"])
+        if detect_table(ucmod) == "textbook":
+            rec["rule"] = rec["cen"]
+        r = BG.big_case(ucmod, idxmod, rec, case["opts"])
+        if r.get("machinery"):
+            raise common.MachineryError(r["machinery"])
+        chk.traces += r["lists"] + r["ringtables"]
+        chk.case(("replay", path))
+        print("replay %s: BIG instance form=%s L=%s centring=%s options=%s: %d reflections listed, %d lists and %d ring tables judged"
+              % (path, rec["g"], rec["lim"], rec["cen"], case["opts"], r.get("n", -1), r["lists"], r["ringtables"]))
+        for f in r["fails"]:
+            if f["label"] == "centring-table" and chk.finding(F_TABLE) is not None:
+                chk.known_finding(F_TABLE, "centring A filtered with the I rule (real list = the set under the I rule)")
+                continue
+            tally.add("big:" + f["label"], f["size"], f["what"], f["case"])
+        for t in r["ring_traces"]:
+            tid = len(tally.ring_traces)
+            tally.ring_traces.append(dict(t["trace"], tid=tid))
+            tally.ring_params[tid] = t["params"]
+        if tally.ring_traces:
+            verdicts, _ = validate_ring_traces(chk, tally)
+            for tid, why in sorted(verdicts.items()):
+                if why:
+                    tally.add("ringtrace:" + why, len(tally.ring_traces[tid]["ds"]),
+                              "TraceRings rejects rings %s of the table: clause %s" % (tally.ring_params[tid].get("window"), why),
+                              tally.ring_params[tid])
     elif case["kind"] == "history":
         recs = [{"g": case["g"], "cen": case["cen"], "tie": case["tie"], "tieaxial": True, "lim": l}
                 for l in sorted(set(case["lims"]))]
@@ -650,18 +854,76 @@ def selftest(ucmod=None, idxmod=None):
     expect(r2, o, "expected set + one reflection", prop="incomplete")
     r2 = copy.deepcopy(rec); r2["extra"] = [list(r2["srt"][0])]
     expect(r2, o, "expected set - one reflection", prop="unsound")
-    r2 = copy.deepcopy(rec); r2["vh"] = (r2["vh"] + 1) % 1000003
-    expect(r2, o, "visit checksum + 1", conf="trace")
-    r2 = copy.deepcopy(rec); r2["hits"][0][3] = 0
-    expect(r2, o, "absent flag flipped", conf="absent-calls")
-    r2 = copy.deepcopy(rec); r2["srt"][0], r2["srt"][-1] = r2["srt"][-1], r2["srt"][0]
-    expect(r2, o, "model order swapped", conf="list-order")
+    if v.algo == "walk":
+        r2 = copy.deepcopy(rec); r2["vh"] = (r2["vh"] + 1) % 1000003
+        expect(r2, o, "visit checksum + 1", conf="trace")
+        r2 = copy.deepcopy(rec); r2["hits"][0][3] = 0
+        expect(r2, o, "absent flag flipped", conf="absent-calls")
+        r2 = copy.deepcopy(rec); r2["srt"][0], r2["srt"][-1] = r2["srt"][-1], r2["srt"][0]
+        expect(r2, o, "model order swapped", conf="list-order")
+    elif v.algo == "box":
+        # the tree enumerates the bounding box (model `box` of HklWalk.tla): perturb that model's expectations
+        r2 = copy.deepcopy(rec); r2["box"][0] += 1; r2["boxtie"] = False
+        expect(r2, o, "model box one wider", conf="trace")
+        r2 = copy.deepcopy(rec); r2["rule"] = "I"
+        expect(r2, o, "model absence rule exchanged", conf="box:absent-calls")
+        o2 = copy.copy(o); o2.peaks = [list(p) for p in o.peaks]; o2.peaks[0], o2.peaks[-1] = o2.peaks[-1], o2.peaks[0]
+        expect(rec, o2, "real list order swapped (box model)", conf="box:list-order")
+    else:
+        raise common.MachineryError("selftest: the tree follows neither the walk nor the box model on the baseline case")
     o2 = copy.copy(o); o2.peaks = [list(p) for p in o.peaks]; o2.peaks[3][0] *= 1 + 1e-7
     expect(rec, o2, "ds value perturbed by 1e-7", prop="ds-value")
     o2 = copy.copy(o); o2.peaks = [list(p) for p in o.peaks]; o2.peaks[0], o2.peaks[-1] = o2.peaks[-1], o2.peaks[0]
     expect(rec, o2, "real list order swapped", prop="not-ascending")
     o2 = copy.copy(o); o2.peaks = [list(p) for p in o.peaks] + [list(o.peaks[0])]
     expect(rec, o2, "duplicate entry", prop="duplicates")
+    # BIG binding: the vectorised judgement must reject every kind of corruption of a real big list
+    import c03_big as BG
+    g, lim, cen = [2, 3, 4, 0, 1, 0], 400, "I"
+    bcell, bscale = L.cell_from_form(g, mode="hi")
+    brute = L.Brute(g, lim, cen)
+    if brute.codes.tolist() != sorted(L.code_np(np.array(sorted(L.brute_py(g, lim, cen)), dtype=np.int64)).tolist()):
+        raise common.MachineryError("selftest: vectorised brute force disagrees with the cube brute force")
+    bd = L.dsmax_for(lim, bscale, False)
+    buc = ucmod.unitcell(bcell, cen)
+    bpk = [list(p) for p in buc.gethkls(bd)]
+    f0, _ = L.judge_list_np(brute, bpk, buc.B, bscale)
+    if f0:
+        raise common.MachineryError("selftest: baseline big list does not pass: %s" % f0)
+
+    def expect_big(pk, what, clause):
+        ff, _ = L.judge_list_np(brute, pk, buc.B, bscale)
+        if clause not in ff:
+            raise common.MachineryError("selftest: %s not rejected by clause %s (%s)" % (what, clause, ff))
+    expect_big([[0.0, (0, 0, 0)]] + bpk, "big list + (0,0,0)", "unsound")
+    expect_big(bpk[:50] + bpk[51:], "big list - one reflection", "incomplete")
+    expect_big(bpk + [bpk[7]], "big list with a duplicate", "duplicates")
+    expect_big([bpk[-1]] + bpk[:-1], "big list with the last entry first", "not-ascending")
+    expect_big(bpk[:9] + [[bpk[9][0] * (1 + 1e-7), bpk[9][1]]] + bpk[10:], "big list, one ds perturbed by 1e-7", "ds-value")
+    btol = BG.exact_tol(lim, bscale)
+    blimit = BG.split_limit(bd, btol)
+    buc = ucmod.unitcell(bcell, cen)
+    buc.makerings(blimit, btol)
+    hk, _ = L.list_arrays(buc.peaks)
+    bq = L.q_np(g, hk)
+    f0, st = L.judge_rings_np(buc, btol, q=bq, scale=bscale)
+    if f0:
+        raise common.MachineryError("selftest: baseline big ring table does not pass: %s" % f0)
+    d1, d2 = buc.ringds[1], buc.ringds[2]
+    keep = (list(buc.ringds), dict(buc.ringhkls))
+    buc.ringhkls = dict(keep[1]); buc.ringhkls[d1] = keep[1][d1] + keep[1][d2][:1]; buc.ringhkls[d2] = keep[1][d2][1:]
+    if not L.judge_rings_np(buc, btol, q=bq, scale=bscale)[0]:
+        raise common.MachineryError("selftest: a reflection moved to the neighbouring ring is not rejected")
+    buc.ringhkls = dict(keep[1]); buc.ringhkls[d2] = keep[1][d2][:-1]
+    if not L.judge_rings_np(buc, btol, q=bq, scale=bscale)[0]:
+        raise common.MachineryError("selftest: a reflection in no ring is not rejected")
+    buc.ringhkls = dict(keep[1]); buc.ringds = keep[0][:1] + keep[0][2:]; buc.ringhkls[keep[0][0]] = keep[1][keep[0][0]] + keep[1][d1]; del buc.ringhkls[d1]
+    if not L.judge_rings_np(buc, btol, q=bq, scale=bscale)[0]:
+        raise common.MachineryError("selftest: two shells merged into one ring are not rejected")
+    buc.ringds, buc.ringhkls = keep
+    r2 = {"g": g, "lim": lim, "cen": cen, "rule": cen, "box": [0, 0, 0], "nbox": 0, "nb": brute.summary()["nb"] + 1}
+    if not BG.big_case(ucmod, idxmod, r2, {"mode": "hi"}).get("machinery"):
+        raise common.MachineryError("selftest: a wrong brute-force count in the TLC record is not noticed")
     # ring trace: corrupt one recorded field -> TraceRings must reject it
     uc = ucmod.unitcell(cell, "P")
     uc.makerings(dsmax - 1e-4, 1e-4)
